@@ -1,5 +1,42 @@
 from engine import Query
-META = {}
+META = {
+ 'functions': ['HashTable.hpp, every member: constructors (capacity, copy, move), destructor, copy/move assignment, Has, GetKey, GetItem (key / index), '
+               'GetKeyIndex, Remove (Key, pointer+length), RemoveIndex, Rename (Key&& and const Key&), Reserve, Clear, Reset, Resize, Expect, Sort, '
+               'Compress, ActualSize, Size/Capacity/Storage/First/End/IsEmpty and the private allocate, insert, remove, copyTable, resize, expand, find, '
+               'generateHash (HashTable.hpp:43-564)',
+               'HArray.hpp: operator+= (copy, move), Get, operator[] (const Key&, Key&&), Insert (Key&&/Value&&, const Key&/const Value&, '
+               'pointer+length/Value&&), GetValue (Key, index, pointer+length[+hash]), HAItem_T::Clear and its relational operators (HArray.hpp:44-268)',
+               'HList.hpp: operator+= (copy, move), Insert (Key&&, const Key&, pointer+length) (HList.hpp:30-158)',
+               'StringUtils::Hash / IsEqual / IsLess / IsGreater (StringUtils.hpp:111-187), Memory::Sort / Swap / SetToZero / AlignSize / Initialize / '
+               'Dispose / Allocate / Deallocate (Memory.hpp), Platform::FindLastBit'],
+ 'bounds': 'HArray<Key2,int> and HList<Key2>. Keys: 0..2 char units, every unit value (NUL included), so equal keys, prefix pairs and bucket '
+           'collisions (Hash ignores the first unit of a 2-unit key; 2 or 4 buckets) are all inside. Values: all 2^32. Pre-state: built through the '
+           'public API by k construction steps whose CLASS is concrete per query (G insert a new key, D insert an existing key again, R remove an '
+           'existing key -> tombstone) while the keys, values and which entry is hit are symbolic; quick k <= 3 (GG, GR, GGR at capacity 2; GGG at '
+           'capacity 4; empty and GG default-constructed), thorough every pattern with k <= 3 at capacity 2, GGR/GRG at 4, default-constructed up '
+           'to GGG, and GGGG at capacity 4 (full; grows to 8) / GGRG at capacity 8. Then ONE operation with symbolic arguments out of: observers '
+           'only, Insert x3 overloads, Get, operator[] x2, Remove x2, RemoveIndex (any index), Rename x2, += copy / move of a second table built the '
+           'same way, Reserve/Resize/Expect (argument enumerated: 0,1,3 / 0,2,5), Compress, Clear, Reset, Sort asc/desc, copy/move construction, '
+           'copy/move assignment over a non-empty table; for 12 of them one further symbolic Insert (".../post"). Afterwards: Size, ActualSize, '
+           'Capacity relation, the j-th visited live entry equals the j-th model entry (first-insertion order; strict key order after Sort), '
+           'index->key->index and key->index->key agreement, Has/GetItem/GetValue/GetKeyIndex of an arbitrary probe key against the model, '
+           'GetKey/GetItem/GetValue of an arbitrary index, untouched source / emptied moved-from source; every dereference, free and array bound '
+           'inside the library code is checked by CBMC on the way. Hash: keys of 0..8 units (char; thorough also char16_t/char32_t) never hash to 0 '
+           'and always have the top bit set.',
+ 'outside': 'histories longer than k+1 (+1) operations; more than 4 construction steps or capacities above 8 (16 after growth); keys longer than 2 units '
+            'in table queries and String keys (their allocation behaviour is C14/C16); value types other than int (ownership of non-trivial values: C16); '
+            'the NUL-terminated overloads operator[](const Char_T*) / Remove(const Char_T*) (they forward after StringUtils::Count); self-merge and '
+            'self-assignment; Sort on tables with 4 and more slots in use (no verdict); Expect/Reserve/Resize arguments other than the enumerated ones; '
+            'allocation failure',
+ 'assumptions': ['Key2 stand-in for the Key_T parameter (q2c/standins/key2.hpp): inline 0..2 units + length, compared through the library\'s own '
+                 'StringUtils::IsEqual/IsLess/IsGreater like String; moved-from key is empty',
+                 'CBMC side only: Memory::Allocate<char>(size) is kept out of line and routed through c13_alloc, which calls the same operator new with a '
+                 'literal size chosen by a case split over the capacities the query can reach (assertion 999 fails if another size is requested); '
+                 'the native replay runs the unmodified function',
+                 'after each construction step the harness asserts Size()/Capacity() equal the values predicted by the spec and writes the same '
+                 'literals back through setSize/setCapacity (-Dprivate=public): a no-op on the state that lets CBMC see allocation sizes as constants',
+                 'construction-step classes are enumerated across queries, not symbolic within one query'],
+}
 OPS = {'NONE': 0, 'INSERT': 1, 'INSERT_PTR': 2, 'INSERT_CREF': 3, 'GET': 4, 'INDEX_KEY': 5, 'INDEX_MOVE': 6, 'REMOVE': 7, 'REMOVE_PTR': 8,
        'REMOVE_INDEX': 9, 'RENAME': 10, 'RENAME_CREF': 11, 'MERGE_COPY': 12, 'MERGE_MOVE': 13, 'RESERVE': 14, 'RESIZE': 15, 'EXPECT': 16,
        'COMPRESS': 17, 'CLEAR': 18, 'SORT_ASC': 19, 'SORT_DESC': 20, 'COPY_CTOR': 21, 'MOVE_CTOR': 22, 'COPY_ASSIGN': 23, 'MOVE_ASSIGN': 24,
@@ -70,9 +107,10 @@ def tq(op, pat, CAP, pat2='', CAP2=2, ARG=0, POST=0, HLIST=0, OBS=15, timeout=30
     if OBS != 15: name += '/obs%d' % OBS
     d = {'OP': OPS[op], 'K': K, 'PATV': vec(CLS[c] for c in pat), 'SZV': vec(x[0] for x in tr), 'CPV': vec(x[1] for x in tr),
          'K2': K2, 'PAT2V': vec(CLS[c] for c in pat2), 'SZ2V': vec(x[0] for x in tr2), 'CP2V': vec(x[1] for x in tr2),
-         'CAP': CAP, 'CAP2': CAP2, 'ARG': ARG, 'POST': POST, 'HLIST': HLIST, 'OBS': OBS, 'CAPSET': sum(cs)}
+         'CAP': CAP, 'CAP2': CAP2, 'ARG': ARG, 'POST': POST, 'HLIST': HLIST, 'OBS': OBS, 'CAPSET': sum(cs), 'LIVE': live}
     return Query(name, 'C13_table.cpp', 'h_op', d, bounds=b, default_unwind=S, rec_bounds={'Sort': S}, default_rec=S,
-                 stubs={ALLOC: 'c13_alloc'}, cflags=['-Dprivate=public', '-Dprotected=public'], timeout=timeout, mem_gb=8, backend=backend)
+                 stubs=({ALLOC: 'c13_alloc'} if cs else {}), cflags=['-Dprivate=public', '-Dprotected=public'], timeout=timeout, mem_gb=8, backend=backend,
+                 extra_cbmc=['--object-bits', '11'])     # Swap temporaries of the recursive Sort exceed CBMC's default 256 objects
 
 def hq(LEN, ch):
     return Query('hash/%s/len%d' % (ch, LEN), 'C13_table.cpp', 'h_hash', {'LEN': LEN, 'CHAR': ch},
@@ -99,30 +137,32 @@ def op_queries(pat, cap, pat2, cap2, args, ops=None, **kw):
 def queries(tier):
     qs = []
     if tier == 'quick':
-        for pat in ('GG', 'GGR'): qs += op_queries(pat, 2, 'GG', 2, (0, 1, 3))
+        for pat in ('GG', 'GGR'): qs += op_queries(pat, 2, 'G', 2, (0, 1, 3))
+        qs += op_queries('G', 2, 'GG', 2, (), ('MERGE_COPY', 'MERGE_MOVE'))
         qs += op_queries('GR', 2, 'GR', 2, (1,), ('NONE', 'INSERT', 'GET', 'REMOVE_INDEX', 'RENAME', 'MERGE_COPY', 'MERGE_MOVE', 'RESIZE', 'EXPECT',
                                                  'COMPRESS', 'SORT_ASC', 'COPY_CTOR', 'COPY_ASSIGN'))
         qs += op_queries('', 2, 'G', 2, (2,), ('NONE', 'INSERT', 'GET', 'REMOVE', 'REMOVE_INDEX', 'RENAME', 'MERGE_COPY', 'EXPECT', 'CLEAR', 'SORT_ASC',
                                                'COPY_CTOR', 'MOVE_CTOR'))
-        qs += op_queries('GGG', 4, 'GR', 2, (2,), ('NONE', 'INSERT', 'REMOVE', 'RENAME', 'MERGE_COPY', 'RESIZE', 'SORT_DESC'))
-        for op, a in POST_OPS: qs.append(tq(op, 'GGR', 2, 'GG', 2, ARG=a, POST=1))
+        qs += op_queries('GGG', 4, 'GR', 2, (2,), ('NONE', 'INSERT', 'REMOVE', 'RENAME', 'MERGE_COPY', 'RESIZE', 'COMPRESS'))
+        for op, a in POST_OPS: qs.append(tq(op, 'GG' if op in ('SORT_ASC', 'COMPRESS') else 'GGR', 2, 'G', 2, ARG=a, POST=1))
         # default-constructed tables (capacity 0 -> 2 -> 4)
         qs += op_queries('', 0, '', 0, (0, 2), ('NONE', 'INSERT', 'GET', 'REMOVE', 'REMOVE_INDEX', 'RENAME', 'MERGE_COPY', 'MERGE_MOVE', 'RESERVE', 'EXPECT',
                                                 'COMPRESS', 'CLEAR', 'SORT_ASC', 'COPY_CTOR', 'MOVE_ASSIGN'))
         qs += op_queries('GG', 0, 'G', 0, (1,), ('NONE', 'INSERT', 'INDEX_KEY', 'REMOVE', 'MERGE_COPY', 'MERGE_MOVE', 'RESIZE', 'COMPRESS', 'SORT_DESC', 'COPY_ASSIGN'))
-        qs += op_queries('GGR', 2, 'GG', 2, (1,), HLIST_OPS, HLIST=1)
+        qs += op_queries('GGR', 2, 'G', 2, (1,), HLIST_OPS, HLIST=1)
         for n in range(0, 9): qs.append(hq(n, 'char'))
         for n in (1, 4): qs += [hq(n, 'char16_t'), hq(n, 'char32_t')]
     else:
-        pats = [''] + [p for n in (1, 2, 3) for p in _pats(n)]
-        for cap in (2, 4):
-            for pat in pats:
-                if valid(pat, cap): qs += op_queries(pat, cap, 'GGR' if cap == 2 else 'GG', 6 - cap, (0, 1, 2, 3, 5))
-        for pat in ('GGGG', 'GGRG', 'GGGR', 'GRGG', 'GGDR'):
-            for cap in (4, 8): qs += op_queries(pat, cap, 'GGR', 4, (0, 3, 5))
+        for pat in ('', 'G', 'GG', 'GD', 'GR', 'GGG', 'GGD', 'GGR', 'GRG'): qs += op_queries(pat, 2, 'GGR', 2, (0, 1, 3), timeout=600)
+        for pat in ('GGR', 'GRG'): qs += op_queries(pat, 4, 'GG', 2, (0, 2, 5), timeout=600)
+        for pat in ('', 'G', 'GG', 'GGG'): qs += op_queries(pat, 0, 'G', 0, (0, 2), timeout=600)
+        k4 = ('NONE', 'INSERT', 'GET', 'REMOVE', 'REMOVE_INDEX', 'RENAME', 'MERGE_COPY', 'MERGE_MOVE', 'RESIZE', 'EXPECT', 'COMPRESS', 'CLEAR',
+              'COPY_CTOR', 'MOVE_ASSIGN')
+        qs += op_queries('GGGG', 4, 'GG', 2, (2,), k4, timeout=900)       # full table of 4: the operation's insert expands to 8
+        qs += op_queries('GGRG', 8, 'GGR', 4, (5,), k4, timeout=900)      # capacity 8 with a tombstone
         for pat in ('GGR', 'GRG', 'GGG'):
-            for op, a in POST_OPS: qs.append(tq(op, pat, 2, 'GG', 2, ARG=a, POST=1))
-        for pat in ('GG', 'GGR', 'GRG', 'GGG'): qs += op_queries(pat, 2, 'GG', 2, (0, 1, 3), HLIST_OPS + ('CLEAR', 'RESIZE', 'EXPECT', 'RESERVE'), HLIST=1)
+            for op, a in POST_OPS: qs.append(tq(op, pat, 2, 'GG', 2, ARG=a, POST=1, timeout=600))
+        for pat in ('GG', 'GGR', 'GRG', 'GGG'): qs += op_queries(pat, 2, 'GG', 2, (1,), HLIST_OPS + ('CLEAR', 'RESIZE', 'EXPECT', 'RESERVE'), HLIST=1, timeout=600)
         for ch in ('char', 'char16_t', 'char32_t'):
             for n in range(0, 9): qs.append(hq(n, ch))
     return qs
@@ -135,9 +175,9 @@ def _pats(n):
 
 def sort_queries(tier):
     """HashTable::Sort then every observer (shared with C15's sort clause)"""
-    pats = ('GG', 'GGR', 'GGG') if tier == 'quick' else ('G', 'GG', 'GGR', 'GRG', 'GGG', 'GGGR', 'GGRG', 'GGGG')
+    pats = ('GG', 'GGR') if tier == 'quick' else ('G', 'GG', 'GR', 'GGR', 'GRG', 'GGG')
     qs = []
     for pat in pats:
         for op in ('SORT_ASC', 'SORT_DESC'):
-            qs.append(tq(op, pat, 4 if len(pat) > 3 else 2))
+            qs.append(tq(op, pat, 2, timeout=600))
     return qs
